@@ -13,10 +13,13 @@ package main
 
 import (
 	"bufio"
+	"bytes"
 	"context"
+	"encoding/binary"
 	"errors"
 	"flag"
 	"fmt"
+	"io"
 	"math"
 	"math/rand"
 	"net"
@@ -1333,13 +1336,86 @@ type peer struct {
 	mdResp    *metadata.Response
 	mdSeen    []*metadata.Request
 	mdVersion []int16
+	mdCluster *metadata.Response // when set: metadata requests are answered from this cluster according to the topic array ON THE WIRE
+	mdWire    []string           // the topic array of each metadata request as read from the raw frame: "-" null, "." empty, else hex names
+	raw       bytes.Buffer       // raw bytes of the request being read
 	done      chan struct{}
+}
+
+// wireTopicArray decodes the topic array of a (non-flexible, v0..v8) metadata request frame
+// by hand: size(4) api key(2) version(2) correlation id(4) client id(int16 length, -1 = null)
+// then the int32 length of the topic array (-1 = null) and its int16-length-prefixed names.
+func wireTopicArray(frame []byte) (isNull bool, names []string, ok bool) {
+	if len(frame) < 14 {
+		return false, nil, false
+	}
+	off := 12
+	n := int(int16(binary.BigEndian.Uint16(frame[off:])))
+	off += 2
+	if n > 0 {
+		off += n
+	}
+	if len(frame) < off+4 {
+		return false, nil, false
+	}
+	count := int(int32(binary.BigEndian.Uint32(frame[off:])))
+	off += 4
+	if count < 0 {
+		return true, nil, true
+	}
+	names = []string{}
+	for i := 0; i < count; i++ {
+		if len(frame) < off+2 {
+			return false, nil, false
+		}
+		l := int(int16(binary.BigEndian.Uint16(frame[off:])))
+		off += 2
+		if l < 0 || len(frame) < off+l {
+			return false, nil, false
+		}
+		names = append(names, string(frame[off:off+l]))
+		off += l
+	}
+	return false, names, true
+}
+
+// clusterAnswer is what a broker holding cluster answers: a null array asks for every
+// topic, a list for those named (one entry per distinct name; unknown names get
+// UNKNOWN_TOPIC_OR_PARTITION), an empty array for none.
+func clusterAnswer(cluster *metadata.Response, isNull bool, names []string) *metadata.Response {
+	res := *cluster
+	if isNull {
+		return &res
+	}
+	res.Topics = []metadata.ResponseTopic{}
+	seen := map[string]bool{}
+	for _, name := range names {
+		if seen[name] {
+			continue
+		}
+		seen[name] = true
+		found := false
+		for _, t := range cluster.Topics {
+			if t.Name == name {
+				res.Topics = append(res.Topics, t)
+				found = true
+				break
+			}
+		}
+		if !found {
+			res.Topics = append(res.Topics, metadata.ResponseTopic{Name: name, ErrorCode: 3})
+		}
+	}
+	return &res
 }
 
 func (p *peer) serve() {
 	defer close(p.done)
 	for {
-		version, corr, _, msg, err := protocol.ReadRequest(p.conn)
+		p.mu.Lock()
+		p.raw.Reset()
+		p.mu.Unlock()
+		version, corr, _, msg, err := protocol.ReadRequest(io.TeeReader(p.conn, &p.raw))
 		if err != nil {
 			return
 		}
@@ -1370,6 +1446,26 @@ func (p *peer) serve() {
 			p.mdSeen = append(p.mdSeen, m)
 			p.mdVersion = append(p.mdVersion, version)
 			res = p.mdResp
+			if p.mdCluster != nil {
+				isNull, names, ok := wireTopicArray(p.raw.Bytes())
+				switch {
+				case !ok:
+					p.badReq = true
+					p.mdWire = append(p.mdWire, "?")
+				case isNull:
+					p.mdWire = append(p.mdWire, "-")
+				default:
+					l := make([]string, len(names))
+					for i, nm := range names {
+						l[i] = S(nm)
+					}
+					p.mdWire = append(p.mdWire, join(l, ","))
+				}
+				if (m.TopicNames == nil) != isNull || len(m.TopicNames) != len(names) {
+					p.badReq = true // /repo/protocol's decoder disagrees with the raw frame
+				}
+				res = clusterAnswer(p.mdCluster, isNull, names)
+			}
 		default:
 			p.badReq = true
 			p.mu.Unlock()
@@ -1757,6 +1853,159 @@ func tier3ReadPartitions(r *rand.Rand, n int) {
 	}
 }
 
+// genClusterMetadata: a cluster's metadata with distinct, non-empty topic names
+func genClusterMetadata(r *rand.Rand) *metadata.Response {
+	m := genMetadataResponse(r, false)
+	var ts []metadata.ResponseTopic
+	seen := map[string]bool{}
+	for _, t := range m.Topics {
+		if t.Name == "" || seen[t.Name] {
+			continue
+		}
+		seen[t.Name] = true
+		if t.ErrorCode != 0 && r.Intn(2) == 0 {
+			t.ErrorCode = 0
+		}
+		ts = append(ts, t)
+	}
+	if len(ts) == 0 || r.Intn(3) == 0 {
+		for _, name := range []string{"orders", "payments", "t1"} {
+			if !seen[name] {
+				seen[name] = true
+				np := 1 + r.Intn(3)
+				t := metadata.ResponseTopic{Name: name}
+				for p := 0; p < np; p++ {
+					part := metadata.ResponsePartition{PartitionIndex: int32(p)}
+					if len(m.Brokers) > 0 {
+						part.LeaderID = m.Brokers[r.Intn(len(m.Brokers))].NodeID
+						part.ReplicaNodes = []int32{part.LeaderID}
+						part.IsrNodes = []int32{part.LeaderID}
+					}
+					t.Partitions = append(t.Partitions, part)
+				}
+				ts = append(ts, t)
+			}
+		}
+	}
+	m.Topics = ts
+	return m
+}
+
+// rpArg is one shape of the ReadPartitions argument
+type rpArg struct {
+	shape string
+	call  func(c *kafka.Conn) ([]kafka.Partition, error)
+	enc   string   // "-" no argument (nil variadic), "." empty non-nil slice, else hex names
+	names []string // topics named by the caller
+}
+
+func rpArgs(r *rand.Rand, cluster *metadata.Response) []rpArg {
+	known := func() string {
+		if len(cluster.Topics) > 0 && r.Intn(4) != 0 {
+			return cluster.Topics[r.Intn(len(cluster.Topics))].Name
+		}
+		return []string{"a", "b", "zz", "missing"}[r.Intn(4)]
+	}
+	named := func(shape string, names []string) rpArg {
+		l := make([]string, len(names))
+		for i, n := range names {
+			l[i] = S(n)
+		}
+		return rpArg{shape: shape, enc: strings.Join(l, ","), names: names,
+			call: func(c *kafka.Conn) ([]kafka.Partition, error) { return c.ReadPartitions(names...) }}
+	}
+	one := known()
+	several := []string{known(), known(), known()}
+	d := known()
+	dups := []string{d, known(), d}
+	backing := []string{"x", "y"}
+	var cfgTopics []string // a config that names no topic, decoded into an empty non-nil slice
+	cfgTopics = append([]string{}, cfgTopics...)
+	return []rpArg{
+		{shape: "arg-none", enc: "-", call: func(c *kafka.Conn) ([]kafka.Partition, error) { return c.ReadPartitions() }},
+		{shape: "arg-nil-slice", enc: "-", call: func(c *kafka.Conn) ([]kafka.Partition, error) { var l []string; return c.ReadPartitions(l...) }},
+		{shape: "arg-empty-nonnil", enc: ".", call: func(c *kafka.Conn) ([]kafka.Partition, error) { return c.ReadPartitions([]string{}...) }},
+		{shape: "arg-empty-cfg", enc: ".", call: func(c *kafka.Conn) ([]kafka.Partition, error) { return c.ReadPartitions(cfgTopics...) }},
+		{shape: "arg-resliced-empty", enc: ".", call: func(c *kafka.Conn) ([]kafka.Partition, error) { return c.ReadPartitions(backing[:0]...) }},
+		named("arg-one", []string{one}),
+		named("arg-several", several),
+		named("arg-duplicates", dups),
+	}
+}
+
+// tier3ReadPartitionsQuery: ReadPartitions for every shape of the argument x Conn with /
+// without topic x metadata v1 / v6, against a peer that answers from a cluster according
+// to the topic array on the wire.
+func tier3ReadPartitionsQuery(r *rand.Rand, n int) {
+	for i := 0; i < n; i++ {
+		cluster := genClusterMetadata(r)
+		connTopics := []string{"", "orders"}
+		if len(cluster.Topics) > 0 {
+			connTopics[1] = cluster.Topics[r.Intn(len(cluster.Topics))].Name
+		}
+		if r.Intn(4) == 0 {
+			connTopics[1] = "not-in-cluster"
+		}
+		for _, a := range rpArgs(r, cluster) {
+			for _, connTopic := range connTopics {
+				for _, v6 := range []bool{false, true} {
+					if i > 0 && r.Intn(3) != 0 {
+						continue // the first cluster runs the full product, the others a third of it
+					}
+					rpQueryCase(cluster, a, connTopic, v6)
+				}
+			}
+		}
+	}
+}
+
+func rpQueryCase(cluster *metadata.Response, a rpArg, connTopic string, v6 bool) {
+	c, p := newPeer(connTopic, 0)
+	defer func() { c.Close(); <-p.done }()
+	c.SetDeadline(time.Now().Add(10 * time.Second))
+	p.mu.Lock()
+	p.mdCluster = cluster
+	if v6 {
+		p.mdMax = 8
+	}
+	p.mu.Unlock()
+	parts, err := a.call(c)
+	p.mu.Lock()
+	bad := p.badReq || len(p.mdWire) != 1 || len(p.mdVersion) != 1
+	wire := "?"
+	if len(p.mdWire) == 1 {
+		wire = p.mdWire[0]
+	}
+	if !bad && ((v6 && p.mdVersion[0] != 6) || (!v6 && p.mdVersion[0] != 1)) {
+		bad = true
+	}
+	p.mu.Unlock()
+	feats := append(mdFeats(cluster), a.shape)
+	if v6 {
+		feats = append(feats, "v6")
+	} else {
+		feats = append(feats, "v1")
+	}
+	if connTopic == "" {
+		feats = append(feats, "no-conn-topic")
+	} else {
+		feats = append(feats, "conn-topic")
+	}
+	rs := ""
+	if err != nil {
+		rs = "err:" + code(err)
+	} else {
+		rs = "ok:" + fmtPartitions(parts)
+		if len(parts) == 0 {
+			rs = "ok:."
+		}
+	}
+	if bad {
+		rs += "REQUEST-BAD"
+	}
+	emit("rpq", kvfmt.Bool(v6)+" "+S(connTopic)+" "+a.enc+" "+fmtMdResponse(cluster), "Q"+wire+" "+rs, dedup(feats))
+}
+
 func main() {
 	seed := flag.Int64("seed", 1, "PRNG seed")
 	count := flag.Int("n", 400, "number of cases per family")
@@ -1773,4 +2022,5 @@ func main() {
 	tier3Seek(r, *count)
 	tier3ReadOffset(r, *count)
 	tier3ReadPartitions(r, *count/2)
+	tier3ReadPartitionsQuery(r, *count/8+1)
 }
